@@ -122,10 +122,196 @@ extern "C" uint64_t simcpu_xgetbv_c(uint32_t idx, uintptr_t site)
         return idx == 0 ? g_simcpu.xcr0 : 0;
 }
 
-extern "C" void sched_point_c(uintptr_t site)
+// ---------------------------------------------------------------- unlocked read-modify-write = two bus cycles
+// The cooperative scheduler executes every instruction atomically, which is how one core behaves. On the simulated multi-core
+// machine only LOCKed (or implicitly locked) read-modify-write instructions are atomic: an unlocked cmpxchg/xadd/add/or/... on memory
+// is a load and a later store, and other cores may run in between (an unlocked cmpxchg also writes the old value back when the
+// comparison fails). When the instruction that follows a scheduling point is such an unlocked RMW it is therefore executed here in
+// two halves with a scheduling point in the gap, and the real instruction is skipped. LOCKed instructions are left to the CPU.
+void (*g_rmw_gap_hook)(uintptr_t site) = nullptr;
+uint64_t g_rmw_split_count = 0, g_rmw_unmodelled_count = 0;
+namespace {
+// saved-register frame of the hook stub (simcall.asm): index by x86 register number
+const int FR_OF_REG[16] = { 14, 12, 11, 13, -1, 8, 10, 9, 7, 6, 5, 4, 3, 2, 1, 0 };
+const int FR_FLAGS = 15, FR_RET = 16;
+uint64_t reg_get(uint64_t *fr, int r) { return r == 4 ? (uint64_t) (uintptr_t) &fr[17] : fr[FR_OF_REG[r]]; }
+void reg_set(uint64_t *fr, int r, uint64_t v, int size)
 {
-        if (g_sched_hook)
-                g_sched_hook(site);
+        if (r == 4)
+                return;
+        if (size == 4)
+                fr[FR_OF_REG[r]] = (uint32_t) v; // 32-bit writes zero-extend
+        else
+                fr[FR_OF_REG[r]] = v;
+}
+uint64_t parity_flag(uint64_t res)
+{
+        return (__builtin_popcount((unsigned) (res & 0xff)) & 1) ? 0 : 0x4;
+}
+uint64_t flags_arith(uint64_t a, uint64_t b, uint64_t res, bool sub, int size)
+{
+        int msb = size * 8 - 1;
+        uint64_t mask = size == 8 ? ~0ull : ((1ull << (size * 8)) - 1);
+        a &= mask, b &= mask, res &= mask;
+        uint64_t f = 0;
+        if (sub ? a < b : res < a)
+                f |= 0x1; // CF
+        f |= parity_flag(res);
+        if ((a ^ b ^ res) & 0x10)
+                f |= 0x10; // AF
+        if (res == 0)
+                f |= 0x40;
+        if ((res >> msb) & 1)
+                f |= 0x80;
+        uint64_t of = sub ? ((a ^ b) & (a ^ res)) : (~(a ^ b) & (a ^ res));
+        if ((of >> msb) & 1)
+                f |= 0x800;
+        return f;
+}
+uint64_t flags_logic(uint64_t res, int size)
+{
+        int msb = size * 8 - 1;
+        uint64_t mask = size == 8 ? ~0ull : ((1ull << (size * 8)) - 1);
+        res &= mask;
+        return parity_flag(res) | (res == 0 ? 0x40 : 0) | (((res >> msb) & 1) ? 0x80 : 0);
+}
+uint64_t mem_load(uintptr_t ea, int size) { return size == 8 ? *(volatile uint64_t *) ea : *(volatile uint32_t *) ea; }
+void mem_store(uintptr_t ea, uint64_t v, int size)
+{
+        if (size == 8)
+                *(volatile uint64_t *) ea = v;
+        else
+                *(volatile uint32_t *) ea = (uint32_t) v;
+}
+
+// returns true when the instruction at 'site' was an unlocked RMW and has been executed here (frame updated, instruction skipped)
+bool split_unlocked_rmw(uintptr_t site, uint64_t *fr)
+{
+        const uint8_t *p = (const uint8_t *) site;
+        int i = 0, rex = 0;
+        bool op16 = false;
+        for (;; i++) {
+                uint8_t b = p[i];
+                if (b == 0xF0)
+                        return false; // LOCK: atomic on the real machine too
+                if (b == 0x66)
+                        op16 = true;
+                else if (b == 0x2E || b == 0x36 || b == 0x3E || b == 0x26 || b == 0xF2 || b == 0xF3)
+                        ;
+                else
+                        break;
+        }
+        if ((p[i] & 0xF0) == 0x40)
+                rex = p[i++];
+        enum { NONE, CMPXCHG, XADD, ALU_RM_R, ALU_RM_IMM, INCDEC } kind = NONE;
+        int alu = -1, immsz = 0;
+        bool byteop = false;
+        uint8_t op = p[i++];
+        if (op == 0x0F) {
+                uint8_t op2 = p[i++];
+                if (op2 == 0xB0 || op2 == 0xB1)
+                        kind = CMPXCHG, byteop = op2 == 0xB0;
+                else if (op2 == 0xC0 || op2 == 0xC1)
+                        kind = XADD, byteop = op2 == 0xC0;
+                else
+                        return false;
+        } else if (op < 0x40 && (op & 7) <= 1) {
+                kind = ALU_RM_R, alu = op >> 3, byteop = !(op & 1);
+        } else if (op == 0x80 || op == 0x81 || op == 0x83) {
+                kind = ALU_RM_IMM, byteop = op == 0x80, immsz = op == 0x81 ? 4 : 1;
+        } else if (op == 0xFE || op == 0xFF) {
+                kind = INCDEC, byteop = op == 0xFE;
+        } else
+                return false; // includes xchg (86/87: implicitly locked) and plain loads/stores
+        uint8_t modrm = p[i++];
+        int mod = modrm >> 6, regf = ((modrm >> 3) & 7) | ((rex & 4) ? 8 : 0), rm = modrm & 7;
+        if (mod == 3)
+                return false; // register destination
+        if (kind == ALU_RM_IMM)
+                alu = (modrm >> 3) & 7;
+        if (kind == INCDEC) {
+                if (((modrm >> 3) & 7) > 1)
+                        return false; // call/jmp/push
+                alu = ((modrm >> 3) & 7) == 0 ? 0 : 5;
+        }
+        if ((kind == ALU_RM_R || kind == ALU_RM_IMM) && (alu == 2 || alu == 3 || alu == 7))
+                return false; // adc/sbb are not modelled; cmp does not write
+        int size = byteop ? 1 : op16 ? 2 : (rex & 8) ? 8 : 4;
+        if (size < 4 || rm == 4) { // byte/word operands and SIB addressing are not modelled: counted, not judged
+                g_rmw_unmodelled_count++;
+                return false;
+        }
+        uintptr_t ea;
+        bool riprel = false;
+        int64_t disp = 0;
+        if (mod == 0 && rm == 5) {
+                riprel = true;
+                disp = *(const int32_t *) (p + i);
+                i += 4;
+        } else if (mod == 1) {
+                disp = *(const int8_t *) (p + i);
+                i += 1;
+        } else if (mod == 2) {
+                disp = *(const int32_t *) (p + i);
+                i += 4;
+        }
+        int64_t imm = 0;
+        if (kind == ALU_RM_IMM) {
+                imm = immsz == 1 ? (int64_t) * (const int8_t *) (p + i) : (int64_t) * (const int32_t *) (p + i);
+                i += immsz;
+        }
+        int len = i;
+        if (riprel)
+                ea = site + (uintptr_t) len + (uintptr_t) disp;
+        else
+                ea = (uintptr_t) (reg_get(fr, rm | ((rex & 1) ? 8 : 0)) + (uint64_t) disp);
+        uint64_t mask = size == 8 ? ~0ull : 0xffffffffull;
+        // ---- first bus cycle: the load
+        uint64_t old = mem_load(ea, size);
+        g_rmw_split_count++;
+        if (g_rmw_gap_hook)
+                g_rmw_gap_hook(site); // other cores run here
+        // ---- second bus cycle: the store, computed from the value loaded earlier
+        uint64_t fl;
+        if (kind == CMPXCHG) {
+                uint64_t acc = reg_get(fr, 0) & mask, src = reg_get(fr, regf) & mask;
+                fl = flags_arith(acc, old, acc - old, true, size);
+                if (acc == old)
+                        mem_store(ea, src, size);
+                else {
+                        mem_store(ea, old, size); // the destination receives a write cycle regardless of the comparison
+                        reg_set(fr, 0, old, size);
+                }
+        } else if (kind == XADD) {
+                uint64_t src = reg_get(fr, regf) & mask, res = (old + src) & mask;
+                fl = flags_arith(old, src, res, false, size);
+                mem_store(ea, res, size);
+                reg_set(fr, regf, old, size);
+        } else {
+                uint64_t src = kind == ALU_RM_R ? (reg_get(fr, regf) & mask) : kind == INCDEC ? 1 : ((uint64_t) imm & mask), res;
+                switch (alu) {
+                case 0: res = old + src; fl = flags_arith(old, src, res, false, size); break;
+                case 5: res = old - src; fl = flags_arith(old, src, res, true, size); break;
+                case 1: res = old | src; fl = flags_logic(res, size); break;
+                case 4: res = old & src; fl = flags_logic(res, size); break;
+                default: res = old ^ src; fl = flags_logic(res, size); break;
+                }
+                if (kind == INCDEC)
+                        fl = (fl & ~1ull) | (fr[FR_FLAGS] & 1); // inc/dec leave CF alone
+                mem_store(ea, res & mask, size);
+        }
+        fr[FR_FLAGS] = (fr[FR_FLAGS] & ~0x8D5ull) | (fl & 0x8D5);
+        fr[FR_RET] += (uint64_t) len;
+        return true;
+}
+} // namespace
+
+extern "C" void sched_point_c(uintptr_t site, uint64_t *frame)
+{
+        if (!g_sched_hook)
+                return;
+        g_sched_hook(site);
+        split_unlocked_rmw(site, frame);
 }
 
 // ---------------------------------------------------------------- Env
